@@ -13,7 +13,7 @@ from ..world import World
 from .c12 import snapshot, write_set, describe_change
 
 PURE = ("serialize", "provn", "graph", "dot", "eq", "req", "hash", "unified", "flattened",
-        "get_records", "records_list", "roundtrip")
+        "get_records", "records_list", "roundtrip", "peek")
 TEXT = ("serialize", "provn")
 
 
@@ -63,7 +63,7 @@ class C13(Oracle):
             "add_ns": 4,
             "set_default": rng.choice([0, 1, 2]), "rec": 14, "add_attrs": 3,
             "set_time": 1, "add_type": 1,
-            "export": 12, "eq": 2, "unified": 2, "flattened": 1,
+            "export": 12, "eq": 2, "unified": 2, "flattened": 1, "peek": 3, "get_record_absent": 1,
             "get_records": 1, "update": rng.choice([0, 1]),
             "roundtrip": rng.choice([0, 1]),
         }
@@ -85,7 +85,7 @@ class C13(Oracle):
         if not hasattr(self, "twin"):
             self.twin = World(self.cfg)
         self.pre = snapshot(w)
-        self.ws = write_set(w, op) if op[0] not in PURE else set()
+        self.ws = write_set(w, op) if (op[0] not in PURE or (op[0] == "peek" and op[2] == "attribute")) else set()
 
     def after(self, w, i, op, out):
         post = snapshot(w)
@@ -121,6 +121,25 @@ class C13(Oracle):
                 self.count("exports_nonempty")
             fmt = op[2] if k == "serialize" else "provn"
             self.count("export_" + fmt)
+            # the text is a function of the document's observable state: if nothing
+            # observable changed since an earlier identical export call (whatever other
+            # read-only calls happened in between), the text must be the same
+            if fmt != "rdf":
+                from .c08 import full_snapshot
+                try:
+                    key = (id(d), repr(op[2:]) if k == "serialize" else "provn")
+                    state = full_snapshot(d)
+                    memo = self.__dict__.setdefault("_texts", {})
+                    prev = memo.get(key)
+                    if prev is not None and prev[0] == state and prev[1] != text:
+                        raise Violation("C13", "repeatable", fmt + "-text-changed-though-document-unchanged",
+                                        {"operation": op, "earlier": prev[1][:800], "now": text[:800]})
+                    memo[key] = (state, text)
+                    self.count("state_text_memo_checks")
+                except Violation:
+                    raise
+                except Exception:
+                    pass
             # second call
             again = w.execute(list(op))
             w.log.pop()
